@@ -14,6 +14,7 @@ CONSTANTS
   Jitter = {0,1}
   MaxT = 64
   MaxBurst = 3
+  MaxReact = 2
   MaxEv = 0
   TickEnds = FALSE
   UseHint = TRUE
@@ -23,6 +24,7 @@ PROPERTY Monotone
 PROPERTY OverclaimIgnored
 PROPERTY PublishEmitsFullVector
 PROPERTY EmitsOnlyLocal
+PROPERTY CallbackPublishEmits
 PROPERTY OutdatedStartsSuppression
 PROPERTY HeardIsMerge
 CONSTRAINT Mark
